@@ -59,6 +59,19 @@ Theorem C05_concat_pattern :
     exists t1 t2, t = t1 ++ t2 /\ wildcard_match p t1 = true /\ wildcard_match q t2 = true.
 Proof. exact concat_pattern. Qed.
 
+(* generalising a pattern never loses a match: any one pattern character replaced by `*` *)
+Theorem C05_widen_to_star :
+  forall (a : list N) (c : N) (b t : list N),
+    wildcard_match (a ++ c :: b) t = true -> wildcard_match (a ++ star :: b) t = true.
+Proof. exact widen_to_star. Qed.
+
+(* every non-`*` pattern character consumes a text character: a matched text is at least as long as the literal part *)
+Theorem C05_match_at_least_literals :
+  forall p t : list N,
+    wildcard_match p t = true ->
+    (length (filter (fun c => negb (N.eqb c star)) p) <= length t)%nat.
+Proof. exact match_at_least_literals. Qed.
+
 (* Non-vacuity: concrete non-trivial instances. *)
 Example C05_example_overlap : wildcard_match [42;97;97;98] [97;97;97;98] = true
                               /\ wildcard_match [97;42;98] [97;98;99] = false
@@ -74,6 +87,8 @@ Print Assumptions C05_suffix_pattern.
 Print Assumptions C05_infix_pattern.
 Print Assumptions C05_adjacent_stars.
 Print Assumptions C05_concat_pattern.
+Print Assumptions C05_widen_to_star.
+Print Assumptions C05_match_at_least_literals.
 Print Assumptions C05_wildcard_match_terminates.
 Print Assumptions C05_glob_reference.
 Print Assumptions C05_old_loop_refuted.
